@@ -3,7 +3,9 @@ import PyElf.Spec.DwarfLookup
 import PyElf.Spec.DwarfNameOrder
 import PyElf.Model.DwarfLookup
 import PyElf.Model.DwarfLookupInfo
+import PyElf.Model.DwarfLookupDie
 import PyElf.Model.Env
+import PyElf.Driver.C04
 open Lean
 namespace PyElf.Driver.C13
 open PyElf PyElf.Spec.Lookup PyElf.Model.Lookup
@@ -174,6 +176,197 @@ def expectQuery (le : Bool) (es : Option (List AREntry)) (us : List InfoUnit) (t
     | none => Json.mkObj [("ok", Json.null)]
     | some o => expectOp le us total (if q.2 then .containing o else .at_ o)
 
+
+/-! ### lookups that end in an entry, on a C04 forest (kind `die`; Model/DwarfLookupDie.lean)
+
+  The request carries a forest description in C04's format (abbreviation tables, units with trees, the string /
+  address / list sections: parsed with C04's request parser, encoded with C04's Spec encoder), optionally a name table
+  (`names`) and a range table (`sets`), and an operation history run on ONE `DWARFInfo` model. -/
+
+inductive DOp
+  | unit (op : Op)                    -- get_CU_containing / get_CU_at: cache priming, as in kind `cu`
+  | ref (x : Int)                     -- dwarfinfo.get_DIE_from_refaddr(x)
+  | lutDie (cu die : Nat)             -- dwarfinfo.get_DIE_from_lut_entry(NameLUTEntry(cu, die))
+  | name (nm : Bytes)                 -- dwarfinfo.get_DIE_from_lut_entry(lut[name])
+  | top (addr : Nat) (byC : Bool)     -- aranges -> unit -> get_top_DIE()
+
+def parseDOp : Json → Except String DOp
+  | .arr #[.str "r", x] => do return .ref (← jIntOf x)
+  | .arr #[.str "L", c, d] => do return .lutDie (← jNatOf c) (← jNatOf d)
+  | .arr #[.str "n", .str h] =>
+    match Bytes.ofHex h with
+    | some b => .ok (.name b)
+    | none => throw "bad name hex"
+  | .arr #[.str "t", a, .bool b] => do return .top (← jNatOf a) b
+  | j => do return .unit (← parseOp j)
+
+/-- an entry without the parent link (an entry reached by offset has no recorded parent) -/
+def dieObsJson (d : Spec.C04.DieObs) : Json :=
+  Json.arr #[jN d.offset, jN d.size, jN d.code, d.tag.toJson, d.hasChildren.toJson,
+             Json.arr (d.attrs.map Driver.C04.attrJson).toArray]
+
+def cuDieJson (r : CU × Spec.C04.DieObs) : Json := Json.arr #[cuJson r.1, dieObsJson r.2]
+
+def optCuDieJson : Option (CU × Spec.C04.DieObs) → Json
+  | some r => cuDieJson r
+  | none => Json.null
+
+structure DieWorld where
+  w : Model.C04.DInfo
+  S0 : DwarfStructs
+  S : DwarfStructs                    -- the bundle the lookup tables are parsed with (`DWARFInfo.structs`)
+  names : Option Bytes
+  table : Option ARanges
+
+def stepDOp (D : DieWorld) (st : CUCache) : DOp → Json × CUCache
+  | .unit op => stepOpI (fun data => infoParser D.w D.S0 data) D.w.info st op
+  | .ref x =>
+    let (r, st') := getDIEFromRefaddr D.w D.S0 st x
+    (resJson cuDieJson r, st')
+  | .lutDie c d =>
+    let (r, st') := getDIEFromLutEntryDie D.w D.S0 st c d
+    (resJson cuDieJson r, st')
+  | .name nm =>
+    let (r, st') := dieByName (Model.dwarfEnv D.S) D.S D.names D.w D.S0 st nm
+    (resJson optCuDieJson r, st')
+  | .top a byC =>
+    let (r, st') := topDIEForAddr byC D.table D.w D.S0 st a
+    (resJson optCuDieJson r, st')
+
+def runDOps (D : DieWorld) : List DOp → CUCache → List Json → List Json × CUCache
+  | [], st, acc => (acc.reverse, st)
+  | op :: ops, st, acc =>
+    let (j, st') := stepDOp D st op
+    runDOps D ops st' (j :: acc)
+
+/-- C04's linear-scan answer for the same reference (`Driver.C04.sectionRef` on the scanned units): reported next to
+    the model's so that `Props.C13.ref_addr_scan_agrees` is also watched on every run -/
+def scanJson (D : DieWorld) (x : Int) : Json :=
+  let units := Model.C04.sectionUnits D.w D.S0 D.w.info false
+  let size := (D.w.info.map (·.length)).getD 0
+  match Driver.C04.sectionRef units size x with
+  | .ok (cuOff, d) => Json.mkObj [("ok", Json.arr #[jN cuOff, dieObsJson d])]
+  | .error e => Json.mkObj [("err", Json.str e.name)]
+
+def placedJson (q : Driver.C04.Placed) : Json := Json.arr #[jN q.off, jN q.dieOff, jN q.size, jN q.cfg.fmt, q.hdr.toJson]
+
+/-- the entry of the placed unit `q` at offset `x`, or null when `x` is not the offset of an entry of `q` -/
+def expectDieIn (q : Driver.C04.Placed) (x : Nat) : Json :=
+  match q.flat.find? (·.offset == x) with
+  | some d => Json.mkObj [("ok", Json.arr #[placedJson q, dieObsJson d])]
+  | none => Json.null
+
+/-- what the property prescribes (null = outside its quantifier) -/
+def expectDOp (le : Bool) (us : List InfoUnit) (total : Nat) (placed : List Driver.C04.Placed)
+    (items : Option (List (Bytes × Nat × Nat))) (es : Option (List AREntry)) : DOp → Json
+  | .unit op => expectOp le us total op
+  | .ref x =>
+    if 0 ≤ x ∧ x < total then
+      match placed.find? (fun q => decide (q.off ≤ x.toNat ∧ x.toNat < q.off + q.size)) with
+      | some q => if q.dieOff ≤ x.toNat then expectDieIn q x.toNat else Json.null
+      | none => Json.null
+    else Json.null
+  | .lutDie c d =>
+    match placed.find? (fun q => q.off == c) with
+    | some q => expectDieIn q d
+    | none => Json.null
+  | .name nm =>
+    match items with
+    | none => Json.null
+    | some items =>
+      match assocGet? items nm with
+      | none => Json.null
+      | some (c, d) =>
+        match placed.find? (fun q => q.off == c) with
+        | some q => expectDieIn q d
+        | none => Json.null
+  | .top a byC =>
+    match es with
+    | none => Json.mkObj [("ok", Json.null)]
+    | some es =>
+      match cuOffsetAt es a with
+      | none => Json.mkObj [("ok", Json.null)]
+      | some o =>
+        let q := if byC then (if o < total then placed.find? (fun q => decide (q.off ≤ o ∧ o < q.off + q.size)) else none)
+                 else placed.find? (fun q => q.off == o)
+        match q with
+        | some q => expectDieIn q q.dieOff
+        | none => Json.null
+
+/-- does the operation call `get_CU_at` at an offset inside the section at which no unit starts (the parse there, if it
+    succeeds, is cached: every later lookup is outside the property — see kind `res`) -/
+def poisons (le : Bool) (us : List InfoUnit) (total : Nat) (es : Option (List AREntry))
+    (items : Option (List (Bytes × Nat × Nat))) : DOp → Bool
+  | .unit (.at_ x) => decide (x < total) && (unitAt le us x).isNone
+  | .unit (.lut c _) => decide (c < total) && (unitAt le us c).isNone
+  | .unit (.containing _) => false
+  | .ref _ => false
+  | .lutDie c _ => decide (c < total) && (unitAt le us c).isNone
+  | .name nm =>
+    match items with
+    | none => false
+    | some items =>
+      match assocGet? items nm with
+      | some (c, _) => decide (c < total) && (unitAt le us c).isNone
+      | none => false
+  | .top a byC =>
+    !byC && (match es with
+             | some es => (match cuOffsetAt es a with
+                           | some o => decide (o < total) && (unitAt le us o).isNone
+                           | none => false)
+             | none => false)
+
+def handleDie (req : Json) (le : Bool) (dasz : Nat) (S : DwarfStructs) : Except String Json := do
+  let tables ← (← jArr req "abbrevs").mapM fun t => do
+    let ds ← (← jArr t "decls").mapM Driver.C04.parseDecl
+    return ({ gap := (Driver.C04.jHexOpt t "gap").getD [], decls := ds, endLen := jNatD t "end_len" 1 } : Spec.C04.TableDesc)
+  let secs := Driver.C04.parseSecs ((req.getObjVal? "secs").toOption.getD (Json.mkObj []))
+  let tbls := tables.map fun t => (t.decls, t.endLen)
+  let units ← (← jArr req "units").mapM (Driver.C04.parseUnitReq tbls)
+  let F := Driver.C04.forestOf le tables units [] secs
+  let info := Spec.C04.infoSec F
+  let abbrevB := Spec.C04.encTables F.tables
+  let placed := Driver.C04.placeUnits F false units
+  let layout := Json.arr (placed.map fun q =>
+    Json.arr #[jN q.off, Json.arr (q.flat.map fun d => jN d.offset).toArray, jN q.dieOff, jN q.size]).toArray
+  if (jBool req "probe").toOption.getD false then
+    return Json.mkObj [("info", jHexOf info), ("abbrev", jHexOf abbrevB), ("layout", layout)]
+  let nameSets : Option (List Spec.Lookup.NameSet) ← match (req.getObjVal? "names").toOption.getD Json.null with
+    | .arr a => do pure (some (← a.toList.mapM parseNameSet))
+    | _ => pure none
+  let arSets : Option (List ARSet) ← match (req.getObjVal? "sets").toOption.getD Json.null with
+    | .arr a => do pure (some (← a.toList.mapM parseSet))
+    | _ => pure none
+  let ops ← (← jArr req "ops").mapM parseDOp
+  let namesB := nameSets.map (encNameSets le)
+  let arB := arSets.map (encSets le 0)
+  let items := nameSets.map fun ss => orderedLastWins (namePairs ss)
+  let es := arSets.map (entriesOf le 0)
+  let us := F.units.map (Spec.C04.infoUnitOf F)
+  let total := info.length
+  -- the hypotheses of ref_addr_resolution_exact / name_to_die_exact / addr_to_top_die that a generated case can fail
+  let wfF := Spec.C04.wfForestB Driver.C04.names F
+  let wfNames := match nameSets with | some ss => ss.all (wfNameSet le) | none => true
+  let wfAr := match arSets with | some ss => wfSets le 0 ss && decide ((entriesOf le 0 ss).Pairwise noShadow) | none => true
+  let poisoned := ops.any (poisons le us total es items)
+  let some S0 := Model.dwarfStructsFor ⟨le, 32, dasz, 2⟩ | throw "no default bundle"
+  let w := Driver.C04.mkWorld le dasz (some info) (some abbrevB) none secs
+  let base := [("info", jHexOf info), ("abbrev", jHexOf abbrevB), ("layout", layout),
+               ("names_bytes", match namesB with | some b => jHexOf b | none => Json.null),
+               ("ar_bytes", match arB with | some b => jHexOf b | none => Json.null),
+               ("wf", Json.bool wfF), ("wf_names", Json.bool wfNames), ("wf_ar", Json.bool wfAr),
+               ("poisoned", Json.bool poisoned),
+               ("expect", Json.arr (ops.map (expectDOp le us total placed items es)).toArray)]
+  match getAranges (Model.dwarfEnv S0) S0 arB with
+  | .error e => return Json.mkObj (base ++ [("model", Json.mkObj [("aranges", Json.mkObj [("err", Json.str e.name)])])])
+  | .ok t =>
+    let D : DieWorld := { w := w, S0 := S0, S := S, names := namesB, table := t }
+    let (as, st) := runDOps D ops CUCache.empty []
+    let scans := ops.filterMap fun op => match op with | .ref x => some (scanJson D x) | _ => none
+    return Json.mkObj (base ++ [("model", Json.mkObj [("aranges", Json.mkObj [("ok", Json.null)]), ("answers", Json.arr as.toArray),
+                                  ("offsets", Json.arr (st.offsets.map jN).toArray)]),
+                                ("scan", Json.arr scans.toArray)])
+
 def handle (req : Json) : Except String Json := do
   let k ← jStr req "k"
   let le ← jBool req "le"
@@ -273,6 +466,7 @@ def handle (req : Json) : Except String Json := do
       ("expect_resolved", Json.arr (qs.map (expectQuery le es usL total)).toArray),
       ("expect_answers", Json.arr (ops.map (expectOp le usL total)).toArray),
       ("model", runRes S le ar info qs ops)]
+  | "die" => handleDie req le dasz S
   | _ => throw s!"C13: unknown kind {k}"
 
 end PyElf.Driver.C13
